@@ -757,6 +757,29 @@ def translate(repo):
     out.append("/-- ~AllocationManager unmaps this many bytes at it->page_ptr for every entry still recorded -/")
     env_dt = {"%s%spages" % (var, acc): ("pages", "pages"), "page_size": ("page", "page")}
     D.add("dbgDtorUnmapLen", ("pages", "page"), m.group(3), "%s%spages * page_size" % (var, acc), env_dt, grid=grid_p, wrap=True)
+    # ---- rebind: the allocator the standard containers obtain for another element type stays in the family (an allocator
+    # class without its own member `rebind` inherits the one of its base class: AlignedAllocator<T,A> would rebind to
+    # MallocAllocator<U> and lose the requested alignment)
+    out.append("/-! rebind<U>::other of the four allocator classes: the same template with the same non-type parameters -/")
+    def class_body(path, rx, what):
+        text = strip_comments(open(os.path.join(repo, path)).read())
+        m_ = find(rx, text, what)
+        return block_after(text, m_, what)
+    rb = r"template\s*<\s*(?:class|typename)\s+(\w+)\s*>\s*struct\s+rebind\s*\{\s*(?:typedef\s+%s\s+other\s*;|using\s+other\s*=\s*%s\s*;)\s*\}\s*;"
+    def has_rebind(body, target):
+        for m_ in re.finditer(r"template\s*<\s*(?:class|typename)\s+(\w+)\s*>\s*struct\s+rebind\s*\{([^}]*)\}", body):
+            t = nows(target % m_.group(1))
+            if nows(m_.group(2)) in ("typedef" + t + "other;", "usingother=" + t + ";"):
+                return True
+        return False
+    bodies = [
+        ("mallocRebindInFamily", "dune/common/mallocallocator.hh", r"class\s+MallocAllocator\s*\{", "MallocAllocator<%s>"),
+        ("alignedRebindKeepsAlignment", "dune/common/alignedallocator.hh", r"class\s+AlignedAllocator\s*:\s*public\s+MallocAllocator\s*<\s*T\s*>\s*\{", "AlignedAllocator<%s,Alignment>"),
+        ("debugRebindInFamily", "dune/common/debugallocator.hh", r"template\s*<\s*class\s+T\s*>\s*class\s+DebugAllocator\s*\{", "DebugAllocator<%s>"),
+        ("paRebindKeepsPoolSize", "dune/common/poolallocator.hh", r"class\s+PoolAllocator\s*\{", "PoolAllocator<%s,s>"),
+    ]
+    for name, path, rx, target in bodies:
+        out.append("def %s : Bool := %s" % (name, "true" if has_rebind(class_body(path, rx, name), target) else "false"))
     # ---- DEBUG_NEW_DELETE: the replaced global operators are the manager's calls for T = char
     full = strip_comments(open(os.path.join(repo, "dune/common/debugallocator.hh")).read())
     nd = re.search(r"#\s*ifdef\s+DEBUG_NEW_DELETE\b(.*?)#\s*endif\s*(?://[^\n]*)?\s*#\s*endif", full, re.S)
